@@ -46,19 +46,22 @@ Definition pr (x : T) := cs_print C x.
 Definition approx_ll (l : loglin S) :=
   pr (ll_rat _ l) :: pr (ll_2pi _ l) :: concat (map (fun cx => [pr (fst cx); pr (snd cx)]) (ll_logs _ l)).
 
-Variables n nw nu nyf nxi : nat.
+Variables n nw nu nyf nxi nur ns : nat.
 
+(* [init_*_s], [Ta_s], [Ka_s], [Pa_s]: the stable blocks (all of it for a model without unit roots), cut out by
+   the harness; [Ka_s] is zero in deviation mode *)
 Definition run_case (deviation rescale_variance : bool) (s : solution QM n nw nu nyf nxi)
-    (init_med : mx QM n 1) (init_mse : mx QM n n) (init_std_u : list T)
+    (init_med : mx QM n 1) (init_mse : mx QM n n) (unknown_init : option (mx QM n nur))
+    (Ta_s : mx QM ns ns) (Ka_s : mx QM ns 1) (Pa_s : mx QM ns nu)
+    (init_med_s : mx QM ns 1) (init_mse_s : mx QM ns ns) (init_std_u : list T)
     (data : list (pdata QM n nw nu nyf)) (expected : list (option T)) :=
-  let s' := if deviation then deviation_solution s else s in
-  let k := kalman_filter deviation rescale_variance s init_med init_mse data in
+  let k := kalman_filter deviation rescale_variance s init_med init_mse unknown_init data in
   let flat := concat (map flatten_pout (k_periods k)) in
   let lk := k_lik k in
   let t_out := tol_out in let t_init := tol_init in
   (failing_from t_out 0 flat expected,
-   [all_close t_init (initialize_med s') init_med;
-    all_small t_init (lyapunov_residual s (cov_from_std QM nu init_std_u) init_mse)],
+   [all_close t_init (initialize_med_stable Ta_s Ka_s) init_med_s;
+    all_small t_init (lyapunov_residual Ta_s Pa_s (cov_from_std QM nu init_std_u) init_mse_s)],
    (* likelihood: sum_num_obs, [[var_scale]; nll; det_Fi; pe_Fi_pe; contribution_0; contribution_1; ...] *)
    Z.of_nat (l_sum_num_obs lk),
    ([pr (l_var_scale lk)] :: approx_ll (l_nll lk)
@@ -66,7 +69,8 @@ Definition run_case (deviation rescale_variance : bool) (s : solution QM n nw nu
 
 (* the model's numbers themselves (debugging aid of the harness) *)
 Definition dump_case (deviation rescale_variance : bool) (s : solution QM n nw nu nyf nxi)
-    (init_med : mx QM n 1) (init_mse : mx QM n n) (data : list (pdata QM n nw nu nyf)) :=
-  let k := kalman_filter deviation rescale_variance s init_med init_mse data in
+    (init_med : mx QM n 1) (init_mse : mx QM n n) (unknown_init : option (mx QM n nur))
+    (data : list (pdata QM n nw nu nyf)) :=
+  let k := kalman_filter deviation rescale_variance s init_med init_mse unknown_init data in
   map pr (concat (map flatten_pout (k_periods k))).
 End Run.
